@@ -157,6 +157,31 @@ def run_impl(model, prefix, limit, fetch=None):
     return {'result': res, 'logs': logs, 'x': canon(glob.get('x')), 'count': options.get('statementCount'), 'points': tape.points}
 
 
+def run_impl_reused_options(model, prefix, limit, fetch=None):
+    """Two consecutive runs with the SAME options object (fresh globals each time): observation of the second run."""
+    bs = load_impl()
+    from ..engine.tape import Tape  # pylint: disable=import-outside-toplevel
+    options = {'maxStatements': limit}
+    if fetch is not None:
+        options['fetchFn'] = fetch
+    out = None
+    for _ in range(2):
+        tape = Tape(prefix)
+        logs = []
+        glob = {'x': 0}
+        glob['cc'] = lambda args, options, tape=tape: tape.ask('cc', 2) == 1
+        options['globals'] = glob
+        options['logFn'] = logs.append
+        try:
+            res = ('ok', canon(bs.execute_script(model, options)))
+        except bs.BareScriptRuntimeError as exc:
+            res = ('raise', 'BareScriptRuntimeError', str(exc))
+        except Exception as exc:  # pylint: disable=broad-exception-caught
+            res = ('raise', type(exc).__name__, str(exc))
+        out = {'result': res, 'logs': logs, 'x': canon(glob.get('x')), 'count': options.get('statementCount'), 'points': tape.points}
+    return out
+
+
 def run_ref(model, prefix, limit, loader=None):
     global REF_LIB  # pylint: disable=global-statement
     if REF_LIB is None:
@@ -236,6 +261,17 @@ def sweep(model, case, acc, prefix, fetch=None, loader=None, effects_only=False)
             acc.transitions += 1
             if full is not None and jm.diff(x, full):
                 acc.violation(dict(case, tape=list(prefix), limit=lim), full, x, f'limit {lim} behaves differently from limit N')
+        # an options object reused for a second run: the counter starts again at zero (completing and aborting limits)
+        for lim in sorted({n + 1, max(1, n - 1), max(1, n // 2)}):
+            first = norm(run_impl(model, prefix, lim, fetch))
+            again = norm(run_impl_reused_options(model, prefix, lim, fetch))
+            acc.evals += 2
+            acc.states += 1
+            acc.transitions += 1
+            if jm.diff(first, again):
+                acc.violation(dict(case, tape=list(prefix), limit=lim, reuse='same options object, second run'), first, again,
+                              'a second run with the same options object behaves differently (the statement counter is not reset at entry)')
+                break
         # prefix property: every aborted run's log is a prefix of the complete log
         if full is not None:
             for lim in range(1, n):
